@@ -700,3 +700,7 @@ def run(chk):
         from ..report import RuleAlias
         chk.guard("R11.11", "psbt-index", c14.check_entry_points, RuleAlias(chk, {"R14.5": "R11.11"}, "an out-of-range "
                   "input index is an error, not a panic"), F)
+        # a signature of the greatest legal length (73 bytes with its sighash byte) in a pre-segwit satisfaction is written
+        # into the scriptSig, not refused by an assertion (rule shared with C17)
+        from . import c17
+        chk.guard("R11.12", "scriptsig-elements", c17.check_scriptsig_encoding, chk, F, "R11.12")
